@@ -17,7 +17,7 @@ use super::prelude::*;
 use crate::Rc2;
 use refmodels::rc2 as r;
 
-//@ harness name=rc2_leaf_pi prop=C09,C20 tier=quick bits=8 desc="L: crate::consts::PI_TABLE[i] == PITABLE of RFC 2268 for every i"
+//@ harness name=rc2_leaf_pi prop=C09,C20 tier=quick bits=8 est=5 desc="L: crate::consts::PI_TABLE[i] == PITABLE of RFC 2268 for every i"
 verif_harness! {
     name: rc2_leaf_pi,
     bytes: 1,
@@ -145,15 +145,15 @@ macro_rules! expand_w {
         }
     };
 }
-//@ harness name=rc2_expand_w_8_64 prop=C09,C20 cbmc_args=--max-field-sensitivity-array-size;300 tier=quick bits=64 stub=1 desc="W: Rc2::expand_key(key, 64) == RFC 2268 key expansion (forward pass L[i] = PITABLE[L[i-1] + L[i-T]], masked byte L[128-T8] = PITABLE[L[128-T8] & TM], backward pass L[i] = PITABLE[L[i+1] ^ L[i+T8]], K[i] = L[2i] + 256 L[2i+1]) for ALL 8-byte keys, T1 = 64; PITABLE abstracted with position-paired look-ups (see file header)"
+//@ harness name=rc2_expand_w_8_64 prop=C09,C20 cbmc_args=--max-field-sensitivity-array-size;300 tier=quick bits=64 stub=1 est=45 desc="W: Rc2::expand_key(key, 64) == RFC 2268 key expansion (forward pass L[i] = PITABLE[L[i-1] + L[i-T]], masked byte L[128-T8] = PITABLE[L[128-T8] & TM], backward pass L[i] = PITABLE[L[i+1] ^ L[i+T8]], K[i] = L[2i] + 256 L[2i+1]) for ALL 8-byte keys, T1 = 64; PITABLE abstracted with position-paired look-ups (see file header)"
 expand_w!(rc2_expand_w_8_64, 8, 64);
-//@ harness name=rc2_expand_w_16_128 prop=C09,C20 cbmc_args=--max-field-sensitivity-array-size;300 tier=quick bits=128 stub=1 desc="W: as rc2_expand_w_8_64 for ALL 16-byte keys, T1 = 128"
+//@ harness name=rc2_expand_w_16_128 prop=C09,C20 cbmc_args=--max-field-sensitivity-array-size;300 tier=quick bits=128 stub=1 est=40 desc="W: as rc2_expand_w_8_64 for ALL 16-byte keys, T1 = 128"
 expand_w!(rc2_expand_w_16_128, 16, 128);
-//@ harness name=rc2_expand_w_5_40 prop=C09,C20 cbmc_args=--max-field-sensitivity-array-size;300 tier=quick bits=40 stub=1 desc="W: as rc2_expand_w_8_64 for ALL 5-byte keys, T1 = 40 (export-grade length of the RFC's examples)"
+//@ harness name=rc2_expand_w_5_40 prop=C09,C20 cbmc_args=--max-field-sensitivity-array-size;300 tier=quick bits=40 stub=1 est=45 desc="W: as rc2_expand_w_8_64 for ALL 5-byte keys, T1 = 40 (export-grade length of the RFC's examples)"
 expand_w!(rc2_expand_w_5_40, 5, 40);
-//@ harness name=rc2_expand_w_13_100 prop=C09,C20 cbmc_args=--max-field-sensitivity-array-size;300 tier=quick bits=104 stub=1 desc="W: as rc2_expand_w_8_64 for ALL 13-byte keys, T1 = 100 (T8 = 13, TM = 0x0f: effective length not a multiple of 8, key length not a power of two)"
+//@ harness name=rc2_expand_w_13_100 prop=C09,C20 cbmc_args=--max-field-sensitivity-array-size;300 tier=quick bits=104 stub=1 est=40 desc="W: as rc2_expand_w_8_64 for ALL 13-byte keys, T1 = 100 (T8 = 13, TM = 0x0f: effective length not a multiple of 8, key length not a power of two)"
 expand_w!(rc2_expand_w_13_100, 13, 100);
-//@ harness name=rc2_expand_w_128_1024 prop=C09,C20 cbmc_args=--max-field-sensitivity-array-size;300 tier=quick bits=1024 stub=1 desc="W: as rc2_expand_w_8_64 for ALL 128-byte keys, T1 = 1024 (empty forward and backward passes, one masked look-up)"
+//@ harness name=rc2_expand_w_128_1024 prop=C09,C20 cbmc_args=--max-field-sensitivity-array-size;300 tier=quick bits=1024 stub=1 est=15 desc="W: as rc2_expand_w_8_64 for ALL 128-byte keys, T1 = 1024 (empty forward and backward passes, one masked look-up)"
 expand_w!(rc2_expand_w_128_1024, 128, 1024);
-//@ harness name=rc2_expand_w_1_1 prop=C09,C20 cbmc_args=--max-field-sensitivity-array-size;300 tier=quick bits=8 stub=1 desc="W: as rc2_expand_w_8_64 for ALL 1-byte keys, T1 = 1 (T8 = 1, TM = 1: both passes at full length)"
+//@ harness name=rc2_expand_w_1_1 prop=C09,C20 cbmc_args=--max-field-sensitivity-array-size;300 tier=quick bits=8 stub=1 est=50 desc="W: as rc2_expand_w_8_64 for ALL 1-byte keys, T1 = 1 (T8 = 1, TM = 1: both passes at full length)"
 expand_w!(rc2_expand_w_1_1, 1, 1);
